@@ -1,5 +1,6 @@
 import Claripy.Solver.Stack
 import Claripy.Solver.Spec
+import Claripy.Solver.Structure
 import Std.Data.HashMap
 /-! Line-protocol driver for the Solver family (see harness/lib/solverrec.py for the protocol).
 One request per line, one answer per line.  Imports only core-Lean model files. -/
@@ -352,6 +353,12 @@ def dispatch (d : DState) (line : String) : DState × String :=
      | some c => ({ d with cls := c, world := World.init (track == "1") (reuse == "1"), added := #[[]] }, "ok")
      | none => (d, "bad-class"))
   | "op" :: args => handleOp d args
+  | ["split", arg] =>
+    -- split <vars of constraint 0>|<vars of constraint 1>|...   ("-" = no variables)
+    let varss := (arg.splitOn "|").map parseList
+    let (groups, concrete) := splitConstraints varss
+    let gs := (groups.map fun g => joinNat g.1 ++ ":" ++ joinNat g.2).mergeSort (· ≤ ·)
+    (d, ";".intercalate gs ++ " concrete=" ++ joinNat concrete)
   | _ => (d, "bad-op")
 
 end DriverSolver
